@@ -748,7 +748,7 @@ class iindex(dict):
         be persisted.
         """
         if mapping is None:
-            mapping = {k: i for i, k in enumerate(sorted(k[0] for k in self))}
+            mapping = {k: i for i, k in enumerate(sorted({k[0] for k in self}))}
 
         new_common = mapping.get(self.common, self.common)
 
